@@ -751,6 +751,18 @@ theorem model_assumptions_tie :
       eInvalidPlaintextLength, eInvalidCiphertextLength] := by
   decide
 
+/-- The rest of the hand-mirrored code, statement by statement: register set-up and output assembly of
+`Wrap`/`Unwrap` (including the constant-time comparison of all eight IV bytes), how `Open` cuts off,
+recomputes and compares the tag, and the truncation in `hmacTag`. -/
+theorem model_assumptions_tie_bodies :
+    Generated.C03.aeskwWrapHead = ["a := make([]byte, 8)", "copy(a, defaultIV)", "n := len(cek) / 8", "r := make([][]byte, n)", "for i := range r { r[i] = make([]byte, 8) copy(r[i], cek[i*8:]) }"] ∧
+    Generated.C03.aeskwWrapTail = ["c := make([]byte, (n+1)*8)", "copy(c, a)", "for i := 1; i <= n; i++ { for j := range r[i-1] { c[(i*8)+j] = r[i-1][j] } }", "return c, nil"] ∧
+    Generated.C03.aeskwUnwrapHead = ["a := make([]byte, 8)", "n := (len(cipherText) / 8) - 1", "r := make([][]byte, n)", "for i := range r { r[i] = make([]byte, 8) copy(r[i], cipherText[(i+1)*8:]) }", "copy(a, cipherText[:8])"] ∧
+    Generated.C03.aeskwUnwrapTail = ["if subtle.ConstantTimeCompare(a, defaultIV) != 1 { return nil, errors.New(\"integrity check failed - unexpected IV\") }", "c := arrConcat(r...)", "return c, nil"] ∧
+    Generated.C03.aescbcaeadOpenHead = ["if len(ciphertext) < aead.tagSize { return nil, errors.New(\"invalid ciphertext size\") }", "ciphertextTag := ciphertext[len(ciphertext)-aead.tagSize:]", "ciphertext = ciphertext[:len(ciphertext)-aead.tagSize]", "expectTag := aead.hmacTag(hmac.New(aead.macAlg, aead.macKey), additionalData, nonce, ciphertext, aead.tagSize)", "if !hmac.Equal(ciphertextTag, expectTag) { return nil, errors.New(\"message authentication failed\") }"] ∧
+    Generated.C03.aescbcaeadHmacTagReturn = "return h.Sum(nil)[:l]" := by
+  decide
+
 /-! ## 7. signatures -/
 
 /-- The kinds of key the harness exercises. -/
